@@ -101,8 +101,7 @@ def handleScalar (line : String) : Option String :=
         if !configOk ty k c o order direct then return "bad-op"
         if !t.holds x then return "bad-op"
         let bb : BitBlock := { order := order, path := path, c := c, bytes := bytes }
-        let buf : Buf := fieldBuf direct bb o k
-        let v : View := { ty := ty, kBits := k, buf := buf }
+        let v : View := fieldView ty direct bb o k
         let pre := s!"cmp={b01 v.isComplete} ok={b01 v.ok} rd={showRd v} could={b01 (v.couldWrite t x)}"
         match v.tryToWrite t x with
         | .refused =>
